@@ -344,6 +344,8 @@ theorem membersLoop_enc (version : Int) (group : Bytes) (ms : List MemberMsg) (h
 
 /-! ### group metadata: top level -/
 
+theorem strVal_some (b : Bytes) : strVal (some b) = b := rfl
+
 theorem processMessage_metadata_key (accept : Accept) (order : Int) (keyRest value : Bytes) :
     processMessage accept order (encI16 2 ++ keyRest) value = decodeGroupMetadata accept keyRest value := by
   simp [processMessage, readI16_enc 2 keyRest 0 (by unfold InRange; decide)]
@@ -395,11 +397,10 @@ theorem metadata_roundtrip (m : GroupMetadata) (hwf : m.WF) (accept : Accept)
     have := members_length_le m.version m.members
     rw [List.length_append]; omega
   obtain ⟨a2, e2⟩ := membersLoop_enc m.version (strVal m.group) m.members hmem rest₂ a1 []
+  have hsv : strVal m.protocolType = consumerBytes := by rw [hpt, strVal_some]
   simp only [decodeAndSendGroupMetadata, encBody, e1]
-  simp only [hpt, strVal, Option.getD_some, ne_eq,
-    not_true_eq_false, if_false, readI32_enc _ _ _ (inRange4_of_nat _ hlen), hc0, Int.toNat_natCast,
-    hmin]
-  simp only [strVal] at e2
+  simp only [hsv, ne_eq, not_true_eq_false, if_false, readI32_enc _ _ _ (inRange4_of_nat _ hlen), hc0,
+    Int.toNat_natCast, hmin]
   rw [e2]
   simp
 
@@ -412,8 +413,9 @@ theorem empty_members_clear (m : GroupMetadata) (hwf : m.WF) (accept : Accept)
   rw [e]
   obtain ⟨a1, e1⟩ := decodeMetadataHeader_runs m hwf
     (encI32 m.members.length ++ (m.members.flatMap (MemberMsg.enc m.version) ++ rest₂)) a
+  have hsv : strVal m.protocolType = consumerBytes := by rw [hpt, strVal_some]
   simp only [decodeAndSendGroupMetadata, encBody, e1]
-  simp only [hpt, strVal, Option.getD_some, ne_eq, not_true_eq_false, if_false]
+  simp only [hsv, ne_eq, not_true_eq_false, if_false]
   have h0 : InRange 4 0 := by unfold InRange; decide
   rw [hnil]
   simp only [List.length_nil, Int.natCast_zero, readI32_enc 0 _ _ h0, if_true]
